@@ -15,6 +15,13 @@
 //! 12 Into-forms for the named methods) are evaluated and must agree: `(-8 code)` otherwise.
 //! Matrix cases are additionally recomputed through the tensor API on the same data
 //! (codes 7xx).
+//!
+//!   (3 30 fop args..)    IEEE-754 oracle: the case `(3 fop _ args..)` at element type f64 (elements
+//!                        given as bit patterns: 0, -0.0, inf, NaN, subnormals ...). Floats never reach
+//!                        the model: the harness checks that all operand forms agree bit for bit (all
+//!                        NaNs are one value), that the tensor and matrix APIs agree and that the result
+//!                        equals the operation evaluated directly with IEEE + - * / (scalar and matrix
+//!                        products: the left fold of the products); prints (1), else (-8 30xx).
 use crate::guarded;
 use crate::num::{Enc, Fp, Rat};
 use crate::sx::*;
@@ -77,6 +84,10 @@ pub fn run(args: &[Sx]) -> Sx {
         return bad_case();
     }
     let (Some(op), Some(ty)) = (args[0].i64(), args[1].i64()) else { return bad_case() };
+    if op == 30 {
+        // (3 30 fop ..): the IEEE-754 oracle; `ty` is the operation
+        return float_oracle(ty, &args[2..]);
+    }
     with_ty3!(ty, run_ty(op, &args[2..]))
 }
 
@@ -781,4 +792,180 @@ where
         return inconsistent(720);
     }
     result
+}
+
+// ================================================================== f64 oracle
+impl Enc for f64 {
+    /// bit pattern; every NaN is the same value (payload and sign of a NaN are unspecified)
+    fn enc(&self) -> Sx {
+        if self.is_nan() {
+            z(-1)
+        } else {
+            z(self.to_bits())
+        }
+    }
+    fn dec(s: &Sx) -> Option<Self> {
+        Some(f64::from_bits(s.int()?.to_u64()?))
+    }
+    fn small(v: i64) -> Self {
+        v as f64
+    }
+}
+
+fn fold_products(a: &[f64], b: &[f64]) -> f64 {
+    let mut it = a.iter().zip(b.iter()).map(|(x, y)| x * y);
+    let first = it.next().expect("non-empty");
+    it.fold(first, |acc, p| acc + p)
+}
+fn scalar_f(k: i64, a: f64, s: f64) -> f64 {
+    match k {
+        0 => a + s,
+        1 => a - s,
+        2 => a * s,
+        _ => a / s,
+    }
+}
+
+fn expected_t_binary<const D: usize>(fop: i64, x: &Sx, y: &Sx) -> Sx {
+    let (Some(x), Some(y)) = (TOp::<f64, D>::decode(x), TOp::<f64, D>::decode(y)) else {
+        return bad_case();
+    };
+    if x.container.shape() != y.container.shape() {
+        return bad_case();
+    }
+    let (a, b): (Vec<f64>, Vec<f64>) = (x.container.iter().collect(), y.container.iter().collect());
+    let data: Vec<f64> = a
+        .iter()
+        .zip(b.iter())
+        .map(|(p, q)| match fop {
+            1 => p + q,
+            2 => p - q,
+            _ => p * q,
+        })
+        .collect();
+    ok(l(vec![shape_sx(&x.container.shape()), enc_list_f(&data)]))
+}
+fn enc_list_f(v: &[f64]) -> Sx {
+    l(v.iter().map(|x| x.enc()).collect())
+}
+fn expected_t_unary<const D: usize>(x: &Sx, k: Option<(i64, f64)>) -> Sx {
+    let Some(x) = TOp::<f64, D>::decode(x) else { return bad_case() };
+    let data: Vec<f64> = x
+        .container
+        .iter()
+        .map(|a| match k {
+            Some((k, s)) => scalar_f(k, a, s),
+            None => -a,
+        })
+        .collect();
+    ok(l(vec![shape_sx(&x.container.shape()), enc_list_f(&data)]))
+}
+fn expected_m_unary(x: &Sx, k: Option<(i64, f64)>) -> Sx {
+    let Some(x) = MOp::<f64>::decode(x) else { return bad_case() };
+    let (r, c) = x.container.size();
+    let data: Vec<f64> = x
+        .container
+        .row_major_iter()
+        .map(|a| match k {
+            Some((k, s)) => scalar_f(k, a, s),
+            None => -a,
+        })
+        .collect();
+    ok(l(vec![z(r), z(c), enc_list_f(&data)]))
+}
+
+fn float_oracle(fop: i64, args: &[Sx]) -> Sx {
+    let actual = run_ty::<f64>(fop, args);
+    let expected = match fop {
+        1 | 2 | 7 if args.len() == 2 => {
+            let Some(d) = operand_dims(&args[0]) else { return bad_case() };
+            crate::with_d!(d, expected_t_binary(fop, &args[0], &args[1]))
+        }
+        3 if args.len() == 3 => {
+            let Some(d) = operand_dims(&args[0]) else { return bad_case() };
+            let (Some(k), Some(s)) = (args[1].i64(), f64::dec(&args[2])) else { return bad_case() };
+            crate::with_d!(d, expected_t_unary(&args[0], Some((k, s))))
+        }
+        6 if args.len() == 1 => {
+            let Some(d) = operand_dims(&args[0]) else { return bad_case() };
+            crate::with_d!(d, expected_t_unary(&args[0], None))
+        }
+        4 if args.len() == 2 => {
+            let (Some(x), Some(y)) = (TOp::<f64, 1>::decode(&args[0]), TOp::<f64, 1>::decode(&args[1]))
+            else {
+                return bad_case();
+            };
+            if x.container.shape() != y.container.shape() {
+                return bad_case();
+            }
+            let (a, b): (Vec<f64>, Vec<f64>) = (x.container.iter().collect(), y.container.iter().collect());
+            ok(fold_products(&a, &b).enc())
+        }
+        5 if args.len() == 2 => {
+            let (Some(x), Some(y)) = (TOp::<f64, 2>::decode(&args[0]), TOp::<f64, 2>::decode(&args[1]))
+            else {
+                return bad_case();
+            };
+            let (xs, ys) = (x.container.shape(), y.container.shape());
+            if xs[1].1 != ys[0].1 || xs[0].0 == ys[1].0 {
+                return bad_case();
+            }
+            let (a, b): (Vec<f64>, Vec<f64>) = (x.container.iter().collect(), y.container.iter().collect());
+            let (m, n, k) = (xs[0].1, xs[1].1, ys[1].1);
+            let mut data = Vec::with_capacity(m * k);
+            for i in 0..m {
+                for j in 0..k {
+                    let row: Vec<f64> = (0..n).map(|t| a[i * n + t]).collect();
+                    let col: Vec<f64> = (0..n).map(|t| b[t * k + j]).collect();
+                    data.push(fold_products(&row, &col));
+                }
+            }
+            ok(l(vec![shape_sx(&[xs[0], ys[1]]), enc_list_f(&data)]))
+        }
+        11 | 12 | 15 if args.len() == 2 => {
+            let (Some(x), Some(y)) = (MOp::<f64>::decode(&args[0]), MOp::<f64>::decode(&args[1])) else {
+                return bad_case();
+            };
+            let ((m, n), (n2, k)) = (x.container.size(), y.container.size());
+            let (a, b): (Vec<f64>, Vec<f64>) =
+                (x.container.row_major_iter().collect(), y.container.row_major_iter().collect());
+            if fop == 15 {
+                if n != n2 {
+                    return bad_case();
+                }
+                let mut data = Vec::with_capacity(m * k);
+                for i in 0..m {
+                    for j in 0..k {
+                        let row: Vec<f64> = (0..n).map(|t| a[i * n + t]).collect();
+                        let col: Vec<f64> = (0..n).map(|t| b[t * k + j]).collect();
+                        data.push(fold_products(&row, &col));
+                    }
+                }
+                ok(l(vec![z(m), z(k), enc_list_f(&data)]))
+            } else {
+                if (m, n) != (n2, k) {
+                    return bad_case();
+                }
+                let data: Vec<f64> =
+                    a.iter().zip(b.iter()).map(|(p, q)| if fop == 11 { p + q } else { p - q }).collect();
+                ok(l(vec![z(m), z(n), enc_list_f(&data)]))
+            }
+        }
+        13 if args.len() == 3 => {
+            let (Some(k), Some(s)) = (args[1].i64(), f64::dec(&args[2])) else { return bad_case() };
+            expected_m_unary(&args[0], Some((k, s)))
+        }
+        16 if args.len() == 1 => expected_m_unary(&args[0], None),
+        _ => return bad_case(),
+    };
+    if expected == bad_case() || actual == bad_case() {
+        return bad_case();
+    }
+    if actual == expected {
+        l(vec![z(1)])
+    } else if actual.list().and_then(|v| v.first()).and_then(|c| c.i64()) == Some(-8) {
+        actual
+    } else {
+        inconsistent(3000 + fop)
+    }
 }
